@@ -1,5 +1,5 @@
 """C07 -- curve operations form the standard group in all four curve modules."""
-from .. import constants, curvemachine, curves, grouptrace, tables
+from .. import constants, curvemachine, curves, grouptrace, mulrec, tables
 
 
 def curve_tables(ctx, mods=None, only_ops=None, secp=False, name="CurveTable"):
@@ -25,3 +25,5 @@ def run(ctx):
     # replayed into the four modules, registers holding the representatives the code itself produced
     curvemachine.run_exhaustive(ctx)
     curvemachine.run_machine(ctx)
+    # step level: the recursion of multiply as a step machine (MulRec.tla) and the recorded call trees
+    mulrec.checks(ctx)
